@@ -143,8 +143,10 @@ class YamlDocument(HierDictDocument):
         return value
 
     def _ret_bool(self, _, value):
-        if value is None or value in (True, False):
+        if value is None:
             return value
+        if value in (True, False):  # also the numbers 0 and 1
+            return bool(value)
         raise ValidationError(value)
 
     def create_in_document(self, ctx, in_string_encoding=None):
